@@ -154,14 +154,24 @@ Definition demo_state (e v : N) : vstate :=
 Definition demo_ops : ops :=
   mkOps (OV 2 0) ONone (OV 0 0) (OC 4294967295) ONone (OV 0 1) (OV 1 1) ONone 0 0 None.
 
-(** v_addc_u32 v2, v0, 0xffffffff (cdna3: carry-in from the running VCC, inactive
-    lanes keep their VCC bit) on lanes 1, 2, 5 with VCC bits 0, 1, 5, 63 set:
-    1+(2^32-1)+1, 2+(2^32-1)+0 and 5+(2^32-1)+1 all carry; lane 0 keeps v2 = 7
-    and its VCC bit, bit 63 is untouched, bit 2 is set by lane 2. *)
+(** v_addc_u32 v2, v0, 0xffffffff on lanes 1, 2, 5 with VCC bits 0, 1, 5, 63 set:
+    1+(2^32-1)+1, 2+(2^32-1)+0 and 5+(2^32-1)+1 all carry; lane 0 keeps v2 = 7.
+    As both ALUs implement it today the VCC bits of inactive lanes are cleared: *)
 Example demo_addc :
-  let r := seq_loop (hdesc H_addc_cdna3 demo_ops) (demo_state 38 (9223372036854775808 + 35)) in
+  let r := seq_loop (hdesc H_addc demo_ops) (demo_state 38 (9223372036854775808 + 35)) in
+  map (fun l => vgpr r l 2%nat) [0; 1; 2; 5]%nat = [7; 1; 1; 5] /\ vcc r = 38.
+Proof. vm_compute. split; reflexivity. Qed.
+
+(** The combinator also covers the form the CDNA3 handler had before commit
+    ae21b7de (carry-in read from the running accumulator, inactive lanes keep
+    their VCC bit): bit 0 (lane 0 inactive) and bit 63 survive, bit 2 is set. *)
+Definition demo_keep_desc : desc := mkD (hfn H_addc demo_ops) MVcc true DVcc true.
+Example demo_addc_keep :
+  let r := seq_loop demo_keep_desc (demo_state 38 (9223372036854775808 + 35)) in
   map (fun l => vgpr r l 2%nat) [0; 1; 2; 5]%nat = [7; 1; 1; 5] /\ vcc r = 9223372036854775808 + 39.
 Proof. vm_compute. split; reflexivity. Qed.
+Example demo_keep_is_lift : forall st, veq (seq_loop demo_keep_desc st) (vec_lift demo_keep_desc st).
+Proof. intros. apply seq_loop_veq_lift; [apply hfn_ext|apply hfn_ld_or_st|reflexivity]. Qed.
 
 (** the hypotheses of the equivariance theorem are satisfiable: rotation by 3 *)
 Definition rot3 (i : nat) : nat := Nat.modulo (i + 3) 64.
@@ -179,7 +189,7 @@ Proof.
 Qed.
 
 Example demo_equivariant :
-  let d := hdesc H_addc_cdna3 demo_ops in
+  let d := demo_keep_desc in
   let st := demo_state 38 (9223372036854775808 + 35) in
   let o := vec_lift d st in let o' := vec_lift d (perm_state rot3' d st) in
   map (fun l => vgpr o' (rot3 l) 2%nat) [0; 1; 2; 5]%nat = map (fun l => vgpr o l 2%nat) [0; 1; 2; 5]%nat /\
@@ -191,7 +201,7 @@ Proof. vm_compute. split; reflexivity. Qed.
     and which lane is higher changes under a permutation *)
 Example demo_store_collision :
   let o := mkOps ONone ONone ONone ONone ONone (OC 0) (OV 0 1) ONone 0 0 None in
-  let d := hdesc H_ds_write_b32 o in let st := demo_state 3 0 in
+  let d := hdesc (H_ds_write 4) o in let st := demo_state 3 0 in
   let swap := fun i => match i with 0%nat => 1%nat | 1%nat => 0%nat | _ => i end in
   lds (vec_lift d st) 0 = 1 /\ lds (vec_lift d (perm_state swap d st)) 0 = 0.
 Proof. vm_compute. split; reflexivity. Qed.
